@@ -1,5 +1,6 @@
 (** C07 — Position tokens: supply = sum; split/merge create no value; owner totals exact. *)
 From MX Require Import Base.Prelude Gen.Params Model.Farm Proofs.FarmInv Proofs.FarmSolv Proofs.FarmOwner.
+From MX Require Import Model.FarmLocked Proofs.FarmLockedProofs.
 
 (** farm-token supply = sum of all outstanding position amounts = sum of what accounts hold,
     in every reachable state *)
@@ -64,6 +65,14 @@ Proof.
   exact (frun_ut ops (init_farm dsc same) (init_farm_ok dsc same Hd) (init_ut dsc same) V u).
 Qed.
 Print Assumptions C07_owner_totals.
+
+(** farm-with-locked-rewards: the same three clauses for every reachable state of the locked farm *)
+Theorem C07_locked_reach : forall dsc same opts lock ops u, 0 < dsc -> Forall lvalid ops ->
+  let f := l_f (lrun (init_locked dsc same opts lock) ops) in
+  f_supply f = asum (f_out f) /\ asum (f_out f) = asum (f_held f) /\
+  utot f u = wsum (fun n => if owner_of f n =? u then 1 else 0) (f_out f).
+Proof. exact locked_C07_reach. Qed.
+Print Assumptions C07_locked_reach.
 
 Example C07_nonvacuous :
   match merge_with (mkAttrs 10 1 5 3 1) (mkAttrs 11 2 0 4 2) with
